@@ -388,6 +388,23 @@ func c17Digests(v c17Value) []string {
 		out = append(out, "FontBBox/odd-numbers "+sha([]byte(line))+" "+head([]byte(line), 200))
 	}
 	{
+		// error texts are results too: operands that hold a code map object (a
+		// pointer inside the library) are handed to the CMap operators and to
+		// operators that report their operand, and the messages are compared
+		prefix := "/CIDInit /ProcSet findresource begin 12 dict begin begincmap /CMapName /Base def 1 begincodespacerange <00> <ff> endcodespacerange endcmap CMapName currentdict /CMap defineresource pop end end /CM /Base /CMap findresource /CodeMap get def /CIDInit /ProcSet findresource begin 12 dict begin begincmap "
+		var sb strings.Builder
+		for _, op := range []string{"usecmap", "1 begincidrange", "endcidrange", "endbfchar", "endbfrange", "endcidchar", "endnotdefrange", "endnotdefchar", "endcodespacerange", "endcmap",
+			"load", "begin", "get", "put", "def", "known", "where", "length", "copy", "forall", "eq", "exec", "bind", "definefont", "defineresource", "findresource", "findfont", "cvx", "type", "index", "roll", "add", "string", "array", "dict", "repeat", "for", "if", "ifelse", "readstring", "eexec", "closefile"} {
+			for _, operand := range []string{"[ CM ]", "CM", "<< /k CM >>", "[ [ CM ] ]", "1 [ CM ]", "[ CM ] 1", "<00> [ CM ]", "/n [ CM ]"} {
+				intp := postscript.NewInterpreter()
+				intp.MaxOps = 5000
+				err := intp.ExecuteString(prefix + operand + " " + op)
+				fmt.Fprintf(&sb, "%v\n", err)
+			}
+		}
+		out = append(out, "error-texts/code-map-operands "+sha([]byte(sb.String())))
+	}
+	{
 		line := "type1.Read/cyclic-composites"
 		for k := 0; k < 8; k++ {
 			f6, err := type1.Read(bytes.NewReader(v.cyclicSeac))
